@@ -108,7 +108,7 @@ PROPS = {
         "assumptions": [],
     },
     "C16": {
-        "rules": [("FLW-3", flw.flw3), ("FLW-3p", r5.flw3p), ("NRM-1", r5.nrm1)],
+        "rules": [("FLW-3", flw.flw3), ("FLW-3p", r5.flw3p), ("FLW-3e", r5.flw3e), ("NRM-1", r5.nrm1)],
         "explanation": "Decides the sibling-agreement and provenance clauses of C16: apply_rules_trace enumerates groups and, per word, the group's rules front to back "
                        "with the step res[j] = rule.apply(res[j].clone())? and no early exit, i.e. projected on one word the same rule sequence as the runner; a Change "
                        "is built only when the whole phrase differs from the snapshot taken before the group, with rule_index = the group loop's enumerate index and "
@@ -128,7 +128,7 @@ PROPS = {
         "assumptions": ["argument and parameter names are meaningful (crossed-names detector: fires only on a crossing, never on merely different names)"],
     },
     "C20": {
-        "rules": [("CLI-2", cli.cli2), ("CLI-3", cli.cli3), ("CLI-5", cli.cli5), ("CLI-8", r5.cli8), ("CLI-11", r5.cli11), ("CLI-13", r5.cli13), ("CLI-15", r5.cli15), ("CLI-16", r5.cli16)],
+        "rules": [("CLI-2", cli.cli2), ("CLI-3", cli.cli3), ("CLI-5", cli.cli5), ("CLI-8", r5.cli8), ("CLI-11", r5.cli11), ("CLI-13", r5.cli13), ("CLI-15", r5.cli15), ("CLI-16", r5.cli16), ("CLI-17", r5.cli17)],
         "explanation": "Decides the cycle, filter and stage-order clauses of C20: Parser::parse returns Ok only after top-level loops that check every `%tag` reference "
                        "for existence and for cycles (detector inserts each visited tag in a set and returns on a repeat), every config slice given to the five "
                        "functions that follow `from` recursively comes from get_config = Parser::parse, and ASCAConfig literals with a reference are built only in "
@@ -154,7 +154,7 @@ PROPS = {
     },
     "C09": {
         "controls": ["BIT"],
-        "rules": [("RT-1", tab2.rt1), ("RT-2", tab2.rt2), ("TAB-6", tab2.tab6), ("FLW-6", flw2.flw6), ("BIT-2", bit.bit2), ("FLW-7", flw2.flw7), ("RT-3", r5.rt3), ("RT-4", r5.rt4), ("RT-5", r5.rt5), ("RT-6", r5.rt6)],
+        "rules": [("RT-1", tab2.rt1), ("RT-2", tab2.rt2), ("TAB-6", tab2.tab6), ("FLW-6", flw2.flw6), ("BIT-2", bit.bit2), ("FLW-7", flw2.flw7), ("RT-3", r5.rt3), ("RT-4", r5.rt4), ("RT-5", r5.rt5), ("RT-6", r5.rt6), ("SYN-8", r5.syn8)],
         "explanation": "Decides three necessary conditions of the text round trip, none of them the round trip itself. RT-1 writer/reader agreement of the suprasegmental notation: "
                        "Word::render_normal writes primary stress as the mark Word::setup reads as Primary, secondary likewise, opens every non-initial unstressed syllable with '.', "
                        "writes a segment equal to its predecessor as 'ː' (read back as a repetition of the last segment) and a non-zero tone as its decimal digits (parsed back into "
@@ -204,7 +204,7 @@ PROPS = {
     },
     "C13": {
         "controls": ["SYN-1", "SYN-2", "SYN-6"],
-        "rules": [("TAB-5", tab2.tab5), ("TAB-6", tab2.tab6), ("TAB-6b", tab2.tab6b), ("SYN-1", tab2.syn1), ("SYN-2", tab2.syn2), ("SYN-3", r5.syn3), ("SYN-4", r5.syn4), ("SYN-6", r5.syn6), ("SYN-7", r5.syn7), ("NRM-1", r5.nrm1)],
+        "rules": [("TAB-5", tab2.tab5), ("TAB-6", tab2.tab6), ("TAB-6b", tab2.tab6b), ("SYN-1", tab2.syn1), ("SYN-2", tab2.syn2), ("SYN-3", r5.syn3), ("SYN-4", r5.syn4), ("SYN-6", r5.syn6), ("SYN-7", r5.syn7), ("SYN-8", r5.syn8), ("NRM-1", r5.nrm1)],
         "explanation": "Decides the table and follow-set clauses of C13: the feature-name synonym tables of the two lexers are equal maps, without "
                        "duplicate or unreachable spellings and covering FEAT_VARIANTS; word-level respellings (Word::to_ipa, Word::new replace chains, "
                        "lexer cur_as_ipa siblings, americanist inverse in render_normal, render marks ⊆ Word::setup tests) equal the manual's tables; every character of the word text that enters a grapheme lookup buffer in Word::fill_segments passes through Word::to_ipa (TAB-6b: the aliases apply at every position, also after `^`); "
